@@ -8,7 +8,7 @@
 (*   tbr_iroas.TBRiROAS.estimate_pointwise_and_cumulative_effect           *)
 (*                                                                         *)
 (* A case is a pair of per-date GROUP TOTALS  x (control), y (treatment),   *)
-(* small non-negative integers, with a shape (n_pre, n_test, n_cool):       *)
+(* small non-negative integers, with a shape (n_pre, n_test, n_cool):      *)
 (* the first n_pre dates are the pre-period, then the test period, then    *)
 (* the cooldown period.  Nothing else enters the contract, so the number   *)
 (* of geos per group, the order of rows and geos / dates that are not      *)
@@ -31,29 +31,33 @@
 (*           E(k) = Sum_{i<=k} (n x_i - S)            (Kerman 2017, eq 5). *)
 (* Products that could exceed 2^31 are never formed: var_k is printed as   *)
 (* the factor lists <<D, V(k)>> / <<n-2, n, n, K, K>> and multiplied by    *)
-(* the replayer with fractions.Fraction.                                   *)
+(* the replayer with fractions.Fraction.  With values <= 3, n <= 5 and at  *)
+(* most 5 analysed days: K <= 54, D < 3200, V(k) < 10^4, |LocNum| < 10^4.  *)
 (***************************************************************************)
 EXTENDS Integers, Sequences, FiniteSets, TLC, Json
 
-CONSTANTS MaxV,        \* series values are 0..MaxV
-          MaxYT,       \* treatment values in the test / cooldown period are 0..MaxYT
-          Shapes,      \* set of shape codes 100 n_pre + 10 n_test + n_cool
-          SampleMod,   \* a case is emitted when Hash % SampleMod = SampleRes ...
+CONSTANTS Shapes,      \* set of shape codes 10000 yfree + 1000 maxv + 100 n_pre + 10 n_test + n_cool
+                       \* (a cfg cannot hold tuples in a set): values are 0..maxv; yfree = 1: the treatment
+                       \* totals of the test / cooldown days range over all of 0..maxv, yfree = 0: they are
+                       \* a fixed function of the other data (they enter loc_k only, additively)
+          SampleMod,   \* a case is emitted when Hash % SampleMod = SampleRes % SampleMod ...
           SampleRes,
           NMMod,       \* ... or it has a non-monotone scale and Hash % NMMod = SampleRes % NMMod
           EmitOnly     \* TRUE: only sampled cases are initial states (the emitting run)
 
 VARIABLES shape, x, y,       \* the case (chosen in Init, never changes)
-          pc,                \* "aggregate" | "fit" | "days" | "done" | "end"
+          c,                 \* what the contract demands for the case (= Contract, fixed in Init)
+          pc,                \* "aggregate" | "fit" | "select" | "days" | "done" | "end"
           tlab, tx, ty,      \* analysis_data: per-date labels and group totals (all dates of the frame)
-          uc,                \* use_cooldown
           fit,               \* sufficient statistics of the pre-period OLS fit
+          uc,                \* use_cooldown
+          ax, ay,            \* control / treatment totals of the analysed days (test, or test + cooldown)
           t, cumx, cumy,     \* day loop: days done, cumulative control / treatment totals
           locs, vs,          \* per analysed day: numerator of loc over n K; V_impl with var = D V_impl/((n-2) n K^2)
           dfit               \* design-side tbrfit result: [est |-> rational, sf |-> rational scale^2/sigma^2]
-vars == <<shape, x, y, pc, tlab, tx, ty, uc, fit, t, cumx, cumy, locs, vs, dfit>>
+vars == <<shape, x, y, c, pc, tlab, tx, ty, fit, uc, ax, ay, t, cumx, cumy, locs, vs, dfit>>
 
-\* ---------------------------------------------------------------- rationals <<num, den>>, den > 0
+\* ---------------------------------------------------------------- rationals <<num, den>>, den > 0, lowest terms
 Abs(i) == IF i < 0 THEN -i ELSE i
 RECURSIVE GCD(_, _)
 GCD(a, b) == IF b = 0 THEN a ELSE GCD(b, a % b)
@@ -71,14 +75,17 @@ RECURSIVE SumF(_, _, _)          \* Sum_{i = lo..hi} f[i]
 SumF(f, lo, hi) == IF hi < lo THEN 0 ELSE f[hi] + SumF(f, lo, hi - 1)
 Sum(s) == SumF(s, 1, Len(s))
 Prod2(s, u) == [i \in 1..Len(s) |-> s[i] * u[i]]
-RECURSIVE HashSeq(_, _)
-HashSeq(s, h) == IF s = <<>> THEN h ELSE HashSeq(Tail(s), (h * 31 + Head(s) + 1) % 65521)
+RECURSIVE HashF(_, _, _)
+HashF(s, k, h) == IF k > Len(s) THEN h ELSE HashF(s, k + 1, (h * 31 + s[k] + 1) % 65521)
 
 \* ---------------------------------------------------------------- the declarative contract (closed form)
-N  == shape \div 100             \* a shape is the code 100 n_pre + 10 n_test + n_cool (a cfg cannot hold tuples in a set)
+YF == shape \div 10000
+MV == (shape % 10000) \div 1000
+N  == (shape % 1000) \div 100
 NT == (shape % 100) \div 10
 NC == shape % 10
-L  == N + NT + NC
+T  == NT + NC
+L  == N + T
 BaseLab == [i \in 1..L |-> IF i <= N THEN "pre" ELSE IF i <= N + NT THEN "test" ELSE "cool"]
 
 cS   == SumF(x, 1, N)
@@ -88,34 +95,42 @@ cQy  == SumF(Prod2(y, y), 1, N)
 cSxy == SumF(Prod2(x, y), 1, N)
 cK   == N * cQ - cS * cS
 cP   == N * cSxy - cS * cSy
-cKy  == N * cQy - cSy * cSy
-cD   == cKy * cK - cP * cP
-cA   == cSy * cK - cP * cS
-NK   == N * cK
-DF   == N - 2
+cD   == (N * cQy - cSy * cSy) * cK - cP * cP
 
-ResNum(i) == NK * y[i] - cA - N * cP * x[i]             \* (y_i - a - b x_i) n K, any date i
-Cx(k) == SumF(x, N + 1, N + k)
-Cy(k) == SumF(y, N + 1, N + k)
-LocNum(k) == NK * Cy(k) - k * cA - N * cP * Cx(k)        \* loc_k n K: cumulative observed minus counterfactual
-E(k) == N * Cx(k) - k * cS                               \* n Sum_{i<=k} (x_i - xbar)
-V(k) == IF k = 0 THEN 0 ELSE k * N * cK + k * k * cK + E(k) * E(k)
-\* var_k = cD V(k) / ((n-2) n^2 K^2)
+Contract ==
+  LET S == cS
+      K == cK
+      P == cP
+      A == cSy * K - P * S
+      nk == N * K
+      res == [i \in 1..L |-> nk * y[i] - A - N * P * x[i]]          \* (y_i - a - b x_i) n K, any date i
+      Cx == [k \in 1..T |-> SumF(x, N + 1, N + k)]
+      Cy == [k \in 1..T |-> SumF(y, N + 1, N + k)]
+      E  == [k \in 1..T |-> N * Cx[k] - k * S]                      \* n Sum_{i<=k} (x_i - xbar)
+  IN [S |-> S, K |-> K, P |-> P, A |-> A, D |-> cD, nk |-> nk, df |-> N - 2,
+      res |-> res,
+      Cx |-> Cx, Cy |-> Cy,
+      loc |-> [k \in 1..T |-> nk * Cy[k] - k * A - N * P * Cx[k]]   \* loc_k n K: cumulative observed minus counterfactual
+                                                                    \* = Sum_{i<=k} res[N + i]
+      , V |-> [k \in 1..T |-> k * N * K + k * k * K + E[k] * E[k]]] \* var_k = D V[k] / ((n-2) n^2 K^2)
 
-AnalysedDays(c) == IF c THEN NT + NC ELSE NT
+AnalysedDays(u) == IF u THEN T ELSE NT
 
 \* C18.  The cumulative q-quantile of day k is loc_k + q s_k, s_k = sqrt(var_k); the pointwise bounds are
 \* first differences (prepend 0):  lower_k = est_k + qlo (s_k - s_{k-1}),  upper_k = est_k + qup (s_k - s_{k-1})
-\* with est_k = loc_k - loc_{k-1}, qlo < 0 < qup.  Hence lower_k <= est_k <= upper_k  <=>  s_k >= s_{k-1}
-\* <=> var_k >= var_{k-1} <=> V(k) >= V(k-1): decided exactly, no square root needed.
-PointwiseOrdered(k) == V(k) >= V(k - 1)
-Monotone == \A k \in 1..(NT + NC) : PointwiseOrdered(k)
-StrictlyMonotone == \A k \in 1..(NT + NC) : V(k) > V(k - 1)
-MonoSign(k) == IF V(k) > V(k - 1) THEN 1 ELSE IF V(k) = V(k - 1) THEN 0 ELSE -1
+\* with est_k = loc_k - loc_{k-1}, qlo < 0 < qup, s_0 = 0.  Hence lower_k <= est_k <= upper_k  <=>
+\* s_k >= s_{k-1}  <=>  var_k >= var_{k-1}  <=>  V[k] >= V[k-1]: decided exactly, no square root needed.
+Vat(v, k) == IF k = 0 THEN 0 ELSE v[k]
+MonotoneV(v) == \A k \in 1..Len(v) : v[k] >= Vat(v, k - 1)
+StrictV(v) == \A k \in 1..Len(v) : v[k] > Vat(v, k - 1)
+MonoSign(v, k) == IF v[k] > Vat(v, k - 1) THEN 1 ELSE IF v[k] = Vat(v, k - 1) THEN 0 ELSE 0 - 1
 
-Hash == HashSeq(x \o y, 7 + 100 * N + 10 * NT + NC)
-Sampled == \/ Hash % SampleMod = SampleRes
-           \/ (~Monotone /\ Hash % NMMod = SampleRes % NMMod)
+Hash == HashF(x \o y, 1, 7 + (shape % 10000))
+RawV == LET S == cS
+            K == cK
+        IN [k \in 1..T |-> LET e == N * SumF(x, N + 1, N + k) - k * S IN k * N * K + k * k * K + e * e]
+Sampled == \/ Hash % SampleMod = SampleRes % SampleMod
+           \/ (Hash % NMMod = SampleRes % NMMod /\ ~MonotoneV(RawV))
 
 \* ---------------------------------------------------------------- layouts (presentation of one case as a geo-level frame)
 \* A layout is [lab : labels per date, geos : sequence of [grp, v]]; grp 1 = control, 2 = treatment, -1 = unassigned.
@@ -146,17 +161,21 @@ RECURSIVE SelF(_, _, _, _)       \* the entries of s at the dates whose label is
 SelF(s, lab, P, k) == IF k = 0 THEN <<>>
                       ELSE IF lab[k] \in P THEN Append(SelF(s, lab, P, k - 1), s[k]) ELSE SelF(s, lab, P, k - 1)
 Sel(s, lab, P) == SelF(s, lab, P, Len(s))
-Periods(c) == IF c THEN {"test", "cool"} ELSE {"test"}
+Periods(u) == IF u THEN {"test", "cool"} ELSE {"test"}
 
 \* ---------------------------------------------------------------- implementation-shaped pipeline
+DerivedY(yp, i) == (x[i] + yp[((i - 1) % N) + 1] + i) % (MV + 1)
 Init ==
   /\ shape \in Shapes
-  /\ x \in [1..L -> 0..MaxV]
+  /\ x \in [1..L -> 0..MV]
   /\ cK > 0
-  /\ \E yp \in [1..N -> 0..MaxV], yt \in [1..(NT + NC) -> 0..MaxYT] : y = yp \o yt
+  /\ \E yp \in [1..N -> 0..MV] :
+       IF YF = 1 THEN \E yt \in [1..T -> 0..MV] : y = yp \o yt
+                 ELSE y = yp \o [i \in 1..T |-> DerivedY(yp, N + i)]
   /\ cD > 0
   /\ (EmitOnly => Sampled)
-  /\ pc = "aggregate" /\ tlab = <<>> /\ tx = <<>> /\ ty = <<>> /\ uc = TRUE
+  /\ c = Contract
+  /\ pc = "aggregate" /\ tlab = <<>> /\ tx = <<>> /\ ty = <<>> /\ uc = TRUE /\ ax = <<>> /\ ay = <<>>
   /\ fit = [n |-> 0, S |-> 0, Q |-> 0, Sy |-> 0, Qy |-> 0, Sxy |-> 0]
   /\ t = 0 /\ cumx = 0 /\ cumy = 0 /\ locs = <<>> /\ vs = <<>>
   /\ dfit = [est |-> <<0, 1>>, sf |-> <<0, 1>>]
@@ -171,19 +190,32 @@ Aggregate ==
           /\ tx' = GroupTotals(lay, Control)
           /\ ty' = GroupTotals(lay, Treatment)
   /\ pc' = "fit"
-  /\ UNCHANGED <<shape, x, y, uc, fit, t, cumx, cumy, locs, vs, dfit>>
+  /\ UNCHANGED <<shape, x, y, c, fit, uc, ax, ay, t, cumx, cumy, locs, vs, dfit>>
 
 \* TBR._fit_pre_period_model: sm.OLS(treatment[pre], [1, control[pre]]).fit() - only the normal-equation sums
-\* enter.  use_cooldown is a constructor argument: chosen here.
+\* enter.
 Fit ==
   /\ pc = "fit"
   /\ LET px == Sel(tx, tlab, {"pre"})
          py == Sel(ty, tlab, {"pre"})
      IN fit' = [n |-> Len(px), S |-> Sum(px), Q |-> Sum(Prod2(px, px)),
                 Sy |-> Sum(py), Qy |-> Sum(Prod2(py, py)), Sxy |-> Sum(Prod2(px, py))]
+  /\ pc' = "select"
+  /\ UNCHANGED <<shape, x, y, c, tlab, tx, ty, uc, ax, ay, t, cumx, cumy, locs, vs, dfit>>
+
+\* Head of causal_cumulative_distribution: periods = (test, cooldown) if use_cooldown else (test,);
+\* causal_effect(periods) and _design_matrix(period_index) select the analysed rows of analysis_data once,
+\* in date order.  Both settings of use_cooldown are explored.  The loop below reads nothing but the
+\* selected rows and the fit, so analysis_data is dropped from the state here (this merges the states of
+\* all layouts of one case).
+Select ==
+  /\ pc = "select"
   /\ uc' \in BOOLEAN
+  /\ ax' = Sel(tx, tlab, Periods(uc'))
+  /\ ay' = Sel(ty, tlab, Periods(uc'))
+  /\ tlab' = <<>> /\ tx' = <<>> /\ ty' = <<>>
   /\ pc' = "days"
-  /\ UNCHANGED <<shape, x, y, tlab, tx, ty, t, cumx, cumy, locs, vs, dfit>>
+  /\ UNCHANGED <<shape, x, y, c, fit, t, cumx, cumy, locs, vs, dfit>>
 
 fK == fit.n * fit.Q - fit.S * fit.S
 fP == fit.n * fit.Sxy - fit.S * fit.Sy
@@ -199,21 +231,19 @@ fD == (fit.n * fit.Qy - fit.Sy * fit.Sy) * fK - fP * fP
 \* so delta_var[t] = sigma^2 (t K + W) / K = D (t K + W) / ((n-2) n K^2); vs holds t K + W.
 Day ==
   /\ pc = "days"
-  /\ LET ax == Sel(tx, tlab, Periods(uc))
-         ay == Sel(ty, tlab, Periods(uc))
-     IN IF t = Len(ax)
-        THEN pc' = "done" /\ UNCHANGED <<t, cumx, cumy, locs, vs>>
-        ELSE LET k  == t + 1
-                 cx == cumx + ax[k]
-                 cy == cumy + ay[k]
-                 eff == fit.n * fK * ay[k] - fA - fit.n * fP * ax[k]
-                 prev == IF t = 0 THEN 0 ELSE locs[t]
-                 W  == fit.Q * k * k - 2 * fit.S * k * cx + fit.n * cx * cx
-             IN /\ t' = k /\ cumx' = cx /\ cumy' = cy
-                /\ locs' = Append(locs, prev + eff)
-                /\ vs' = Append(vs, k * fK + W)
-                /\ UNCHANGED pc
-  /\ UNCHANGED <<shape, x, y, tlab, tx, ty, uc, fit, dfit>>
+  /\ t < Len(ax)
+  /\ LET k  == t + 1
+         cx == cumx + ax[k]
+         cy == cumy + ay[k]
+         K  == fK
+         eff == fit.n * K * ay[k] - fA - fit.n * fP * ax[k]
+         prev == IF t = 0 THEN 0 ELSE locs[t]
+         W  == fit.Q * k * k - 2 * fit.S * k * cx + fit.n * cx * cx
+     IN /\ t' = k /\ cumx' = cx /\ cumy' = cy
+        /\ locs' = Append(locs, prev + eff)
+        /\ vs' = Append(vs, k * K + W)
+        /\ pc' = IF k = Len(ax) THEN "done" ELSE "days"
+  /\ UNCHANGED <<shape, x, y, c, tlab, tx, ty, fit, uc, ax, ay, dfit>>
 
 \* TBRMMDiagnostics(y_pre, par).x = x_pre; tbrfit(xt, yt) with par.n_test = t analysed days and
 \* xt, yt the means over the analysed days; written with the code's own intermediate quantities:
@@ -223,65 +253,72 @@ DesignFit ==
   /\ pc = "done"
   /\ LET nt == t
          n  == fit.n
+         K  == fK
          dx == RatSub(Rat(cumx, nt), Rat(fit.S, n))
          dy == RatSub(Rat(cumy, nt), Rat(fit.Sy, n))
-         b  == Rat(fP, fK)
-         var0 == Rat(fK, n * n)                                 \* Sum (x - xbar)^2 / n = K / n^2
+         b  == Rat(fP, K)
+         var0 == Rat(K, n * n)                                  \* Sum (x - xbar)^2 / n = K / n^2
          dv == RatDiv(RatMul(dx, dx), var0)
          inner == RatAdd(RatDiv(RatAdd(<<1, 1>>, dv), <<n, 1>>), Rat(1, nt))
      IN dfit' = [est |-> RatMul(<<nt, 1>>, RatSub(dy, RatMul(b, dx))),
                  sf  |-> RatMul(<<nt * nt, 1>>, inner)]           \* scale^2 / sigma^2
   /\ pc' = "end"
-  /\ UNCHANGED <<shape, x, y, tlab, tx, ty, uc, fit, t, cumx, cumy, locs, vs>>
+  /\ UNCHANGED <<shape, x, y, c, tlab, tx, ty, fit, uc, ax, ay, t, cumx, cumy, locs, vs>>
 
-Next == Aggregate \/ Fit \/ Day \/ DesignFit
+Next == Aggregate \/ Fit \/ Select \/ Day \/ DesignFit
 Spec == Init /\ [][Next]_vars /\ WF_vars(Next)
 
 \* ---------------------------------------------------------------- properties
 TypeOK ==
-  /\ pc \in {"aggregate", "fit", "days", "done", "end"}
-  /\ N >= 3 /\ NT >= 1 /\ NC >= 0 /\ cK > 0 /\ cD > 0 /\ DF >= 1
+  /\ pc \in {"aggregate", "fit", "select", "days", "done", "end"}
+  /\ N >= 3 /\ NT >= 1 /\ NC >= 0 /\ c.K > 0 /\ c.D > 0 /\ c.df >= 1
   /\ Len(locs) = t /\ Len(vs) = t /\ t <= AnalysedDays(uc)
 
 \* Layout independence: whatever the layout, the analysis data restricted to the assigned periods are the totals.
 AggregateIsTotals ==
-  pc # "aggregate" => /\ Sel(tx, tlab, {"pre", "test", "cool"}) = x
-                      /\ Sel(ty, tlab, {"pre", "test", "cool"}) = y
-                      /\ Sel(tlab, tlab, {"pre", "test", "cool"}) = BaseLab
+  pc \in {"fit", "select"} => /\ Sel(tx, tlab, {"pre", "test", "cool"}) = x
+                            /\ Sel(ty, tlab, {"pre", "test", "cool"}) = y
+                            /\ Sel(tlab, tlab, {"pre", "test", "cool"}) = BaseLab
+
+\* The analysed days are the test days, followed by the cooldown days iff use_cooldown.
+SelectedAreAnalysed ==
+  pc \in {"days", "done", "end"} => /\ ax = SubSeq(x, N + 1, N + AnalysedDays(uc))
+                                   /\ ay = SubSeq(y, N + 1, N + AnalysedDays(uc))
 
 \* The fitted line is THE least-squares line: the residuals satisfy the normal equations, and
 \* RSS = D / (n K), so sigma^2 = RSS / (n - 2) = D / ((n-2) n K) with n - 2 degrees of freedom.
 FitIsOLS ==
-  pc \in {"days", "done", "end"} =>
-    /\ fit.n = N /\ fK = cK /\ fP = cP /\ fA = cA /\ fD = cD
-    /\ SumF([i \in 1..N |-> ResNum(i)], 1, N) = 0
-    /\ SumF([i \in 1..N |-> x[i] * ResNum(i)], 1, N) = 0
-    /\ SumF([i \in 1..N |-> ResNum(i) * ResNum(i)], 1, N) = cD * NK
+  pc = "select" =>
+    /\ fit.n = N /\ fK = c.K /\ fP = c.P /\ fA = c.A /\ fD = c.D
+    /\ SumF(c.res, 1, N) = 0
+    /\ SumF(Prod2(x, c.res), 1, N) = 0
+    /\ SumF(Prod2(c.res, c.res), 1, N) = c.D * c.nk
 
-\* The day loop computes the closed form of Kerman (2017) eq. 5 on every analysed day.
+\* The day loop computes the closed form of Kerman (2017) eq. 5 on every analysed day
+\* (day t is judged in the state in which it has just been produced).
 ImplRefinesClosedForm ==
-  \A k \in 1..t : /\ locs[k] = LocNum(k)
-                  /\ N * vs[k] = V(k)
-                  /\ vs[k] > 0
-Finished == pc \in {"done", "end"} => t = AnalysedDays(uc) /\ cumx = Cx(t) /\ cumy = Cy(t)
+  t > 0 => /\ locs[t] = c.loc[t]
+           /\ N * vs[t] = c.V[t]
+           /\ vs[t] > 0
+Finished == pc \in {"done", "end"} => t = AnalysedDays(uc) /\ cumx = c.Cx[t] /\ cumy = c.Cy[t]
 
 \* The design-side fit is the analysis-side posterior of the last analysed day.
 DesignAgrees ==
-  pc = "end" => /\ RatEq(dfit.est, <<LocNum(t), NK>>)
-                /\ RatEq(dfit.sf, <<V(t), NK>>)
+  pc = "end" => /\ RatEq(dfit.est, <<c.loc[t], c.nk>>)
+                /\ RatEq(dfit.sf, <<c.V[t], c.nk>>)
 
 \* C18 identities that do not involve the quantile: with cf_i = a + b x_i the counterfactual and
-\* pw_i = y_i - cf_i the pointwise difference (both over n K), cf + pw = observed by definition,
+\* pw_i = y_i - cf_i the pointwise difference (both over n K), cf + pw = observed,
 \* pre-period pw are the residuals (sum to zero), and the cumulative effect of the last day is loc_T.
 EffectSeriesIdentities ==
-  pc \in {"done", "end"} =>
-    /\ \A i \in 1..L : (cA + N * cP * x[i]) + ResNum(i) = NK * y[i]
-    /\ SumF([i \in 1..L |-> ResNum(i)], N + 1, N + t) = locs[t]
-    /\ SumF([i \in 1..L |-> ResNum(i)], 1, N + t) = locs[t]
+  pc = "done" =>
+    /\ \A i \in 1..L : (c.A + N * c.P * x[i]) + c.res[i] = c.nk * y[i]
+    /\ SumF(c.res, N + 1, N + t) = locs[t]
+    /\ SumF(c.res, 1, N + t) = locs[t]
 
 \* NOT an invariant of the model (checked in a separate run that must produce a counterexample):
 \* the pointwise series satisfies lower <= estimate <= upper on every analysed day.
-EffectSeriesOrdered == Monotone
+EffectSeriesOrdered == MonotoneV(c.V)
 
 Terminates == <>(pc = "end")
 
@@ -290,15 +327,15 @@ Lab2Int(s) == IF s = "pre" THEN 0 ELSE IF s = "test" THEN 1 ELSE 2
 Emit ==
   (pc = "end" /\ uc /\ Sampled) =>
     PrintT(ToJson([
-      npre |-> N, ntest |-> NT, ncool |-> NC, x |-> x, y |-> y,
+      shape |-> shape, npre |-> N, ntest |-> NT, ncool |-> NC, x |-> x, y |-> y,
       lab |-> [i \in 1..L |-> Lab2Int(BaseLab[i])],
-      df |-> DF, K |-> cK, P |-> cP, A |-> cA, nk |-> NK, D |-> cD,
-      resnum |-> [i \in 1..N |-> ResNum(i)],
+      df |-> c.df, K |-> c.K, P |-> c.P, A |-> c.A, nk |-> c.nk, D |-> c.D,
+      resnum |-> [i \in 1..N |-> c.res[i]],
       locnum |-> locs,
       V |-> [k \in 1..t |-> N * vs[k]],
-      varden |-> <<DF, N, N, cK, cK>>,
-      monosign |-> [k \in 1..t |-> MonoSign(k)],
-      mono |-> Monotone, strict |-> StrictlyMonotone,
-      dest |-> dfit.est, dsf |-> dfit.sf, sig2 |-> <<cD, DF * NK>>,
+      varden |-> <<c.df, N, N, c.K, c.K>>,
+      monosign |-> [k \in 1..t |-> MonoSign(c.V, k)],
+      mono |-> MonotoneV(c.V), strict |-> StrictV(c.V),
+      dest |-> dfit.est, dsf |-> dfit.sf, sig2 |-> <<c.D, c.df * c.nk>>,
       hash |-> Hash]))
 =============================================================================
